@@ -7,6 +7,8 @@ pub const BUILD: &str = "simd";
 #[cfg(debug_assertions)]
 pub const BUILD: &str = "dbg";
 
+mod chaos;
+mod crash;
 mod dec;
 mod foreign;
 mod gen;
@@ -17,9 +19,11 @@ mod props_pipe;
 mod props_proto;
 mod proto;
 mod refinf;
+mod reuse;
 mod rng;
 mod runner;
 mod script;
+mod sum;
 mod zlibffi;
 
 use json::J;
@@ -30,6 +34,10 @@ fn registry() -> Vec<CheckDef> {
     v.extend(props_dec::defs());
     v.extend(props_pipe::defs());
     v.extend(props_proto::defs());
+    v.extend(chaos::defs());
+    v.extend(crash::defs());
+    v.extend(reuse::defs());
+    v.extend(sum::defs());
     v
 }
 
@@ -74,6 +82,7 @@ fn main() {
             let mut o = J::obj();
             o.set("evidence", r.evidence);
             o.set("violations", J::Arr(r.violations.clone()));
+            o.set("known", J::Arr(r.known.clone()));
             if let Some(e) = &r.harness_error {
                 o.set("harness_error", J::s(e));
             }
